@@ -468,10 +468,10 @@ PROPS = {
     },
     "C16": {
         "lean_modules": ["Dbg.Props.C16"],
-        "theorems": ["Avx2.C16_baseToBits_table", "Avx2.C16_valid_table", "Avx2.C16_render_back", "Avx2.C16_scalar_is_bytewise", "Avx2.C16_str_agrees"],
-        "partial": ["convert_lanewise / pack_spec / paths_agree (vector path = scalar path for every byte string), strict_runs, hashn_spec: the "
-                    "kernels are modelled intrinsic by intrinsic and compared on arbitrary bytes (also outside their preconditions) on every "
-                    "run; theorems not yet written"],
+        "theorems": ["Avx2.C16_convert", "Avx2.C16_pack", "Avx2.C16_paths", "Avx2.C16_paths_agree", "Avx2.C16_render", "Avx2.C16_strict_runs",
+                     "Avx2.C16_hashn", "Avx2.C16_hashn_arms", "Avx2.lane_table", "Avx2.C16_baseToBits_table", "Avx2.C16_valid_table",
+                     "Avx2.C16_render_back", "Avx2.C16_scalar_is_bytewise", "Avx2.C16_str_agrees"],
+        "partial": [],
         "n_quick": 12000, "n_thorough": 1000000,
         "nontrivial": lambda toks, impl: impl not in ("panic", "unavailable"), "tags": _c16_tags,
         "rule": "requests: `acgt auto|scalar <bytes>` (lengths 0..130 incl. 0,1,31..33,63..65,95..97,128,130; 60% ACGTacgt, 40% arbitrary bytes "
